@@ -143,6 +143,8 @@ class GeomMonitor(taps.Monitor):
         cls = type(m).__name__
         p, tl = m.points.astype(float), np.asarray(m.trilist)
         scale = max(1e-12, float(np.abs(p).max()))
+        # results are computed in the mesh's own precision
+        ntol = 1e-8 if m.points.dtype == np.float64 else 2e-5
         if exc is not None:
             ctx.fail("geometry_query_raised", cls=cls, mech=self.name + "_%dD_" % m.n_dims + type(exc).__name__, error=repr(exc)[:200])
             return
@@ -150,7 +152,7 @@ class GeomMonitor(taps.Monitor):
             exp = ref_area(p, tl)
             err = np.abs(np.asarray(r) - exp).max() / scale ** 2
             ctx.err("tri_areas_rel", err)
-            if r.shape != (len(tl),) or (r < 0).any() or err > 1e-7:
+            if r.shape != (len(tl),) or (r < 0).any() or err > (1e-7 if m.points.dtype == np.float64 else 1e-4):
                 ctx.fail("tri_areas_wrong", cls=cls, mech="%dD" % m.n_dims, err=float(err))
         elif self.name == "edge_lengths":
             t = p[tl]
@@ -163,7 +165,7 @@ class GeomMonitor(taps.Monitor):
                 # per triangle, the three lengths as a multiset
                 g = np.sort(got.reshape(-1, 3), axis=1)
                 e = np.sort(exp, axis=1)
-                if np.abs(g - e).max() > 1e-9 * scale:
+                if np.abs(g - e).max() > (1e-9 if m.points.dtype == np.float64 else 1e-5) * scale:
                     ctx.fail("edge_lengths_wrong", cls=cls, mech="%dD" % m.n_dims)
         elif self.name == "unique_edge_indices":
             exp = set()
@@ -200,9 +202,9 @@ class GeomMonitor(taps.Monitor):
                 perp = max(np.abs((n[ok] * e1[ok]).sum(1) / np.linalg.norm(e1[ok], axis=1)).max(),
                            np.abs((n[ok] * e2[ok]).sum(1) / np.linalg.norm(e2[ok], axis=1)).max())
                 ctx.err("tri_normal_unit", unit); ctx.err("tri_normal_perp", perp)
-                if unit > 1e-8:
+                if unit > ntol:
                     ctx.fail("tri_normals_not_unit", cls=cls, err=float(unit))
-                if perp > 1e-8:
+                if perp > ntol:
                     ctx.fail("tri_normals_not_perpendicular_to_triangle", cls=cls, err=float(perp))
                 # right-hand orientation w.r.t. the vertex order (consistent with "follow rotations")
                 refn = np.cross(e1[ok], e2[ok])
@@ -227,7 +229,7 @@ class GeomMonitor(taps.Monitor):
             elif defined.any():
                 unit = np.abs(np.linalg.norm(n[defined], axis=1) - 1).max()
                 ctx.err("vertex_normal_unit", unit)
-                if unit > 1e-8:
+                if unit > ntol:
                     ctx.fail("vertex_normals_not_unit", cls=cls, err=float(unit))
 
 
@@ -272,6 +274,8 @@ def make_mesh(rng, cls, d, kind):
     n = len(pts)
     if rng.random() < 0.3:
         tl = tl.astype(np.uint32)
+    if rng.random() < 0.2:
+        pts = pts.astype(np.float32)          # meshes loaded from files are often single precision
     if cls == "TriMesh":
         return ms.TriMesh(pts, trilist=tl)
     if cls == "ColouredTriMesh":
@@ -363,7 +367,14 @@ def w_geometry(ctx, rng, i):
     scale = float(np.abs(m.points).max() + np.abs(tvec).max())
     ea = np.abs(a1 - a0).max() / scale ** 2
     el = np.abs(l1 - l0).max() / scale
-    ctx.err("area_rigid_rel", ea); ctx.err("length_rigid_rel", el)
+    f32 = m.points.dtype == np.float32
+    ctx.err("area_rigid_rel" + (":f32" if f32 else ""), ea); ctx.err("length_rigid_rel" + (":f32" if f32 else ""), el)
+    if f32:
+        # single precision: only the coarse relations are judged (the taps judge each query against its reference)
+        if ea > 1e-4 or el > 1e-4 or (a0 < 0).any() or (l0 < 0).any():
+            ctx.fail("geometry_changes_under_rigid_motion", cls=cls, mech="float32:%dD" % d, err=float(max(ea, el)))
+        ctx.count_case((cls, d, kind, "float32", "geometry"), nontrivial=True)
+        return
     if ea > 1e-9 or (a0 < 0).any():
         ctx.fail("areas_change_under_rigid_motion", cls=cls, mech="%dD" % d, err=float(ea))
     if el > 1e-9 or (l0 < 0).any():
